@@ -5,6 +5,7 @@ import Driver.C05
 import Driver.C02
 import Driver.C18
 import Driver.C19
+import Driver.Engine
 /-!
 Line-protocol driver: one request per line on stdin, one answer per line on stdout.
 Only model files are imported (no proofs, no Mathlib), so this links as a native executable.
@@ -28,6 +29,7 @@ def dispatch (line : String) : String :=
     | "cdec" => cmdCdec args
     | "menc" => cmdMenc args
     | "route" => cmdRoute args
+    | "eng" => cmdEng args
     | _ => "bad-op"
 
 partial def loop (h : IO.FS.Stream) (out : IO.FS.Stream) : IO Unit := do
